@@ -106,9 +106,17 @@ func after(op, p1, p2 string) {
 }
 
 func Stat(name string) (FileInfo, error) {
-	if _, ok := vnow(); ok {
-		if target, err := filepath.EvalSymlinks(name); err == nil {
-			Fix(target)
+	if now, ok := vnow(); ok {
+		if fi, err := orig.Lstat(name); err == nil {
+			if fi.Mode()&orig.ModeSymlink != 0 {
+				if target, err := filepath.EvalSymlinks(name); err == nil {
+					Fix(target)
+				}
+			} else if looksReal(fi.ModTime(), now) {
+				Fix(name)
+			} else {
+				return fi, nil
+			}
 		}
 	}
 	return orig.Stat(name)
